@@ -54,8 +54,8 @@ bool SelectFdEvent::initialize(int fd, short events, Mode mode)
     }
 
     events_ = events;
-    if (mode == FdEvent::Mode::kOneshot)
-        is_stop_after_trigger_ = true;
+    //! 重新initialize()时以本次的mode为准（之前是kOneshot、这次是kPersist的，要恢复为持续触发）
+    is_stop_after_trigger_ = (mode == FdEvent::Mode::kOneshot);
 
     return true;
 }
